@@ -158,6 +158,15 @@ def scenarios():
     S['hash_two_inputs'] = dict(files={'in/a': 'A' * 2500, 'in/b': 'B' * 2500},
                                 threads=[sb(1, read_hash('in/a')), sb(2, read_hash('in/b'))])
     S['hash_two_outputs'] = dict(threads=[bf_hash('a/x', 'x' * 2500), bf_hash('a/y', 'y' * 2500)])
+    # duplicates issued from inside cacheable callers that catch the rejection: the loser's caller must not be served from
+    # the cache later (a rejected attempt is recorded as a set-up failure, whoever wins)
+    S['dup_cached_in_callers'] = dict(prior=[sb(7, queries(['']))],
+                                      threads=[sb(1, catching(sb(7, queries([''])))), sb(2, catching(sb(7, queries(['']))))], dup=True, solo=True)
+    S['dup_file_cached_in_callers'] = dict(prior=[bf('a/x', w('1'), name='same')],
+                                           threads=[sb(1, catching(bf('a/x', w('1'), name='same'))), sb(2, catching(bf('a/x', w('1'), name='same')))], dup=True, solo=True)
+    # a file requested directly while a cached subbuild that contains it is being reused: exactly one of the two is refused
+    S['dup_file_in_cached_sub'] = dict(prior=[sb(5, bf('a/x', w('1'), name='same'))],
+                                       threads=[catching(sb(5, bf('a/x', w('1'), name='same'))), catching(bf('a/x', w('1'), name='same'))], dup=True)
     S['three_threads'] = dict(threads=[bf('a/x', w('1')), bf('a/y', w('2')), bf('a/z', w('3'))])
     S['dup_file'] = dict(threads=[catching(bf('a/x', w('1'), name='same')), catching(bf('a/x', w('1'), name='same'))], dup=True)
     S['dup_sub'] = dict(threads=[catching(sb(7, queries(['']))), catching(sb(7, queries([''])))], dup=True)
@@ -268,6 +277,29 @@ def run_scenario(scn, mode, deviations=None, order=None):
             out['createdDirs'] = sorted(os.path.relpath(d, root) for d in cj['createdDirs'])
         # what the next build and clean do (sequentially, outside the scheduler)
         inv = []
+        if scn.get('solo'):
+            # first: later builds in which only ONE of the bodies runs - a caller that caught a rejection is not served
+            # from the cache (a rejected attempt is a set-up failure, never a result)
+            import file_builder.file_builder as fbm0
+            orig0 = fbm0.FileBuilder._call_and_sanitize_return_value
+            solo = []
+            for i, body in enumerate(bodies):
+                calls0 = []
+
+                def spy0(self, func, args, kwargs, description, calls0=calls0):
+                    calls0.append(description.replace(root, '<R>'))
+                    return orig0(self, func, args, kwargs, description)
+                fbm0.FileBuilder._call_and_sanitize_return_value = spy0
+                try:
+                    try:
+                        FB.build(cache, 'n', lambda b, body=body: body(b, P, inv))
+                    except Exception as e:
+                        calls0.append('solo-rebuild-raised:' + type(e).__name__)
+                finally:
+                    fbm0.FileBuilder._call_and_sanitize_return_value = orig0
+                # ... told apart by whether this body was the one whose attempt was refused in the threaded build
+                solo.append(['refused' if 'RuntimeError' in json.dumps(results[i]) else 'served', sorted(calls0)])
+            out['solo_rebuilds'] = sorted(json.dumps(x) for x in solo)
 
         def root_again(b):
             def wrap(body):
@@ -306,7 +338,7 @@ def run_scenario(scn, mode, deviations=None, order=None):
         shutil.rmtree(priv, ignore_errors=True)
 
 
-KEYS = ['root', 'results', 'tree', 'createdDirs', 'rebuild_calls', 'after_clean', 'tmp_left']
+KEYS = ['root', 'results', 'tree', 'createdDirs', 'rebuild_calls', 'after_clean', 'tmp_left', 'solo_rebuilds']
 
 
 def project(o, scn):
